@@ -61,14 +61,14 @@ def model_op(op):
 
 
 def reg_case(addr, length, endian, base, image, nodes, ops, flags=1, cachable="NoCache", sibling_invalidators=False,
-             struct_entries=False, meta=None):
+             struct_entries=False, meta=None, port_swap=False):
     if struct_entries:
         ents = [("N%d" % i, n["lsb"], n["msb"], n["lsb"] if n.get("bit") else None,
                  "Signed" if n.get("sign") else "Unsigned") for i, n in enumerate(nodes)]
         xml = X.document([X.struct_reg(addr, length, ents, endian="BigEndian" if endian else "LittleEndian",
                                        cachable=cachable, access="RW")])
     else:
-        xml = X.document(render_nodes(addr, length, endian, nodes, cachable, sibling_invalidators))
+        xml = X.document(render_nodes(addr, length, endian, nodes, cachable, sibling_invalidators), port_swap=port_swap)
     rline = "g %d %s %d %s %s" % (flags, xhex(xml.encode()), base, xhex(image), " ".join(rust_op(o) for o in ops))
     toks = [addr, length, endian, base, len(nodes)]
     for n in nodes:
